@@ -254,7 +254,9 @@ class Ref:
                 while rolling:
                     rolling = False
                     for f, v in zip(group, vals):
-                        if isinstance(v, (list, tuple)) and not hasattr(v, "_fields"):
+                        # a tokens field holds ONE list value (one element with space-separated items) unless it is a list of lists
+                        one_token_list = bool(f.metadata.get("tokens")) and not (v and isinstance(v[0], (list, tuple)) and not hasattr(v[0], "_fields"))
+                        if isinstance(v, (list, tuple)) and not hasattr(v, "_fields") and not one_token_list:
                             if j < len(v):
                                 rolling = True
                                 self.content_field(kids, cls, f, v[j], fns[f.name], elem_gen, default_type, hints, single_of_list=True, class_ns=cns)
